@@ -366,6 +366,60 @@ func c18CheckChan(what string, c *c18ChanView, s c18ChanSum) {
 	verifrt.Assert(c.Paused == s.paused, what+":paused-if-paused-anywhere")
 }
 
+// the topic view oracle: `topic` aggregated over the asked nodes that answer; returns the
+// number of nodes that have the topic and the union of its channel names
+func c18CheckTopicView(what string, f *c18Fleet, v *c18TopicView, topic string) (int, []string) {
+	var depth, backend, msgs int64
+	paused := false
+	have := 0
+	var chanNames []string
+	for _, n := range f.asked {
+		for _, t := range n.topics {
+			if t.TopicName != topic {
+				continue
+			}
+			have++
+			depth += t.Depth
+			backend += t.BackendDepth
+			msgs += t.MessageCount
+			paused = paused || t.Paused
+			cnt := 0
+			for _, nv := range v.Nodes {
+				if nv.Node == n.addr {
+					cnt++
+					verifrt.Assert(nv.Hostname == n.host && nv.Depth == t.Depth && nv.MessageCount == t.MessageCount && nv.BackendDepth == t.BackendDepth,
+						what+":node-entry-is-what-the-node-reported")
+				}
+			}
+			verifrt.Assert(cnt == 1, what+":one-node-entry-per-node-with-the-topic")
+			for _, c := range t.Channels {
+				if !c18Has(chanNames, c.ChannelName) {
+					chanNames = append(chanNames, c.ChannelName)
+				}
+			}
+		}
+	}
+	verifrt.Assert(v.TopicName == topic, what+":name")
+	verifrt.Assert(len(v.Nodes) == have, what+":nothing-but-the-reporting-nodes")
+	verifrt.Assert(v.Depth == depth, what+":sum:depth")
+	verifrt.Assert(v.BackendDepth == backend, what+":sum:backend-depth")
+	verifrt.Assert(v.MemoryDepth == depth-backend, what+":sum:memory-depth")
+	verifrt.Assert(v.MessageCount == msgs, what+":sum:message-count")
+	verifrt.Assert(v.Paused == paused, what+":paused-if-paused-anywhere")
+	verifrt.Assert(len(v.Channels) == len(chanNames), what+":channels-are-the-union-by-name")
+	for _, name := range chanNames {
+		cnt := 0
+		for _, c := range v.Channels {
+			if c.ChannelName == name {
+				cnt++
+				c18CheckChan(what+":channel", c, f.chanSum(topic, name))
+			}
+		}
+		verifrt.Assert(cnt == 1, what+":each-channel-listed-once")
+	}
+	return have, chanNames
+}
+
 // GET /api/topics/t: the topic aggregated over the nsqd the lookupds name for it.
 func VerifC18_ViewTopic() {
 	verifrt.Atomic(func() {
@@ -379,54 +433,7 @@ func VerifC18_ViewTopic() {
 			return
 		}
 		verifrt.Assert(f.u.unknown == 0, "view-topic:no-other-endpoint-asked")
-		var depth, backend, msgs int64
-		paused := false
-		have := 0
-		var chanNames []string
-		for _, n := range f.asked {
-			for _, t := range n.topics {
-				if t.TopicName != "t" {
-					continue
-				}
-				have++
-				depth += t.Depth
-				backend += t.BackendDepth
-				msgs += t.MessageCount
-				paused = paused || t.Paused
-				cnt := 0
-				for _, nv := range v.Nodes {
-					if nv.Node == n.addr {
-						cnt++
-						verifrt.Assert(nv.Hostname == n.host && nv.Depth == t.Depth && nv.MessageCount == t.MessageCount && nv.BackendDepth == t.BackendDepth,
-							"view-topic:node-entry-is-what-the-node-reported")
-					}
-				}
-				verifrt.Assert(cnt == 1, "view-topic:one-node-entry-per-node-with-the-topic")
-				for _, c := range t.Channels {
-					if !c18Has(chanNames, c.ChannelName) {
-						chanNames = append(chanNames, c.ChannelName)
-					}
-				}
-			}
-		}
-		verifrt.Assert(v.TopicName == "t", "view-topic:name")
-		verifrt.Assert(len(v.Nodes) == have, "view-topic:nothing-but-the-reporting-nodes")
-		verifrt.Assert(v.Depth == depth, "view-topic:sum:depth")
-		verifrt.Assert(v.BackendDepth == backend, "view-topic:sum:backend-depth")
-		verifrt.Assert(v.MemoryDepth == depth-backend, "view-topic:sum:memory-depth")
-		verifrt.Assert(v.MessageCount == msgs, "view-topic:sum:message-count")
-		verifrt.Assert(v.Paused == paused, "view-topic:paused-if-paused-anywhere")
-		verifrt.Assert(len(v.Channels) == len(chanNames), "view-topic:channels-are-the-union-by-name")
-		for _, name := range chanNames {
-			cnt := 0
-			for _, c := range v.Channels {
-				if c.ChannelName == name {
-					cnt++
-					c18CheckChan("view-topic:channel", c, f.chanSum("t", name))
-				}
-			}
-			verifrt.Assert(cnt == 1, "view-topic:each-channel-listed-once")
-		}
+		have, chanNames := c18CheckTopicView("view-topic", f, &v, "t")
 		verifrt.Reach("view-topic:two-nodes", have == 2)
 		verifrt.Reach("view-topic:channel-on-one-node-only", have == 2 && len(chanNames) == 2)
 		if verifrt.Tier() == 1 { // the shape "node that no longer has the topic" exists in the thorough menu only
@@ -434,6 +441,50 @@ func VerifC18_ViewTopic() {
 		}
 		verifrt.Observe("view-topic.nodes", len(v.Nodes))
 	})
+}
+
+// the channel view oracle: (topic, channel) aggregated over the asked nodes that answer, with
+// one node entry per reporting node and every client tagged with its node
+func c18CheckChannelView(what string, f *c18Fleet, v *c18ChanView, sum c18ChanSum, topic, channel string) {
+	verifrt.Assert(v.ChannelName == channel && v.TopicName == topic, what+":names")
+	c18CheckChan(what, v, sum)
+	verifrt.Assert(len(v.Nodes) == sum.nodes, what+":one-node-entry-per-reporting-node")
+	verifrt.Assert(len(v.Clients) == sum.clients, what+":all-clients-listed")
+	for _, n := range f.asked {
+		for _, t := range n.topics {
+			for _, c := range t.Channels {
+				if t.TopicName != topic || c.ChannelName != channel {
+					continue
+				}
+				cnt := 0
+				for _, nv := range v.Nodes {
+					if nv.Node == n.addr {
+						cnt++
+						verifrt.Assert(nv.Depth == c.Depth && nv.MessageCount == c.MessageCount && nv.Hostname == n.host, what+":node-entry-is-what-the-node-reported")
+					}
+				}
+				verifrt.Assert(cnt == 1, what+":one-node-entry-per-reporting-node")
+				cl := 0
+				for _, cv := range v.Clients {
+					if cv.Node == n.addr {
+						cl++
+					}
+				}
+				verifrt.Assert(cl == len(c.Clients), what+":clients-tagged-with-their-node")
+				for _, rc := range c.Clients {
+					one := 0
+					for _, cv := range v.Clients {
+						if cv.ClientID == rc.ClientID {
+							one++
+							verifrt.Assert(cv.Node == n.addr && cv.Hostname == rc.Hostname && cv.MessageCount == rc.MessageCount && cv.UserAgent == rc.UserAgent,
+								what+":client-entry-is-what-its-node-reported")
+						}
+					}
+					verifrt.Assert(one == 1, what+":every-reported-client-listed-once")
+				}
+			}
+		}
+	}
 }
 
 // GET /api/topics/t/c: one channel aggregated over the nodes, with its clients.
@@ -456,45 +507,7 @@ func VerifC18_ViewChannel() {
 			return
 		}
 		verifrt.Assert(f.u.unknown == 0, "view-channel:no-other-endpoint-asked")
-		verifrt.Assert(v.ChannelName == "c" && v.TopicName == "t", "view-channel:names")
-		c18CheckChan("view-channel", &v, sum)
-		verifrt.Assert(len(v.Nodes) == sum.nodes, "view-channel:one-node-entry-per-reporting-node")
-		verifrt.Assert(len(v.Clients) == sum.clients, "view-channel:all-clients-listed")
-		for _, n := range f.asked {
-			for _, t := range n.topics {
-				for _, c := range t.Channels {
-					if t.TopicName != "t" || c.ChannelName != "c" {
-						continue
-					}
-					cnt := 0
-					for _, nv := range v.Nodes {
-						if nv.Node == n.addr {
-							cnt++
-							verifrt.Assert(nv.Depth == c.Depth && nv.MessageCount == c.MessageCount && nv.Hostname == n.host, "view-channel:node-entry-is-what-the-node-reported")
-						}
-					}
-					verifrt.Assert(cnt == 1, "view-channel:one-node-entry-per-reporting-node")
-					cl := 0
-					for _, cv := range v.Clients {
-						if cv.Node == n.addr {
-							cl++
-						}
-					}
-					verifrt.Assert(cl == len(c.Clients), "view-channel:clients-tagged-with-their-node")
-					for _, rc := range c.Clients {
-						one := 0
-						for _, cv := range v.Clients {
-							if cv.ClientID == rc.ClientID {
-								one++
-								verifrt.Assert(cv.Node == n.addr && cv.Hostname == rc.Hostname && cv.MessageCount == rc.MessageCount && cv.UserAgent == rc.UserAgent,
-									"view-channel:client-entry-is-what-its-node-reported")
-							}
-						}
-						verifrt.Assert(one == 1, "view-channel:every-reported-client-listed-once")
-					}
-				}
-			}
-		}
+		c18CheckChannelView("view-channel", f, &v, sum, "t", "c")
 		verifrt.Reach("view-channel:two-nodes-three-clients", sum.nodes == 2 && sum.clients == 3)
 		verifrt.Observe("view-channel.nodes", len(v.Nodes))
 	})
